@@ -156,6 +156,13 @@ class RawHeaderPacketReceiver(Elaboratable):
 
                 m.next = "WAIT_FOR_HPSTART"
 
+                # Packets can arrive back-to-back: the word we see while checking may already be the
+                # start of the next header packet. (Our CRC comparison above uses the registered value;
+                # clearing takes effect on the next cycle.)
+                m.d.comb += crc16.clear.eq(1)
+                with m.If(stream_matches_symbols(sink, SHP, SHP, SHP, EPF)):
+                    m.next = "RECEIVE_DW0"
+
 
         return m
 
